@@ -370,3 +370,33 @@ func VerifAdvertisedCIDLimit(client, version, fingerprint string) (advertised ui
 func VerifQUICIDs() []QUICID {
 	return []QUICID{QUICFirefox_116A, QUICFirefox_116B, QUICFirefox_116C, QUICChrome_115_IPv4, QUICChrome_115_IPv6, QUICChrome_146_IPv4, QUICChrome_146_IPv6}
 }
+
+// ---------------------------------------------------------------- whole transports (end-to-end driver)
+
+// VerifTransportRouting lists a live Transport's routing table (connection IDs with the kind of their handler, sorted)
+// and the number of registered stateless reset tokens.
+func VerifTransportRouting(t *Transport) (ids [][]byte, kinds []string, tokens int) {
+	t.mutex.Lock()
+	defer t.mutex.Unlock()
+	type ent struct {
+		id   []byte
+		kind string
+	}
+	var l []ent
+	for id, hd := range t.handlers {
+		k := "conn" // a live connection (possibly wrapped)
+		switch hd.(type) {
+		case *closedLocalConn:
+			k = "local"
+		case *closedRemoteConn:
+			k = "remote"
+		}
+		l = append(l, ent{append([]byte{}, id.Bytes()...), k})
+	}
+	sort.Slice(l, func(i, j int) bool { return string(l[i].id) < string(l[j].id) })
+	for _, e := range l {
+		ids = append(ids, e.id)
+		kinds = append(kinds, e.kind)
+	}
+	return ids, kinds, len(t.resetTokens)
+}
